@@ -122,3 +122,33 @@ def _mapping_rows(m):
                 vals.append(str(x))
         rows.append((str(idx),) + tuple(vals))
     return tuple(sorted(rows))
+
+
+def module_state_hash():
+    """hash of everything mutable that lives OUTSIDE the objects hashed by state_key: module-level containers of the
+    eaopack modules and the default arguments of their functions and methods (a mutable default such as `skip_nodes=[]`
+    is shared state). E2 merges states on the assumption that this never changes; the assumption is checked on every
+    transition."""
+    import sys
+    import inspect
+    parts = []
+    for mname in sorted(m for m in sys.modules if m == "eaopack" or m.startswith("eaopack.")):
+        mod = sys.modules[mname]
+        for name, val in sorted(vars(mod).items()):
+            if name.startswith("__"):
+                continue
+            if isinstance(val, (dict, list, set)):
+                parts.append((mname, name, repr(val)[:2000]))
+            elif inspect.isfunction(val) and val.__module__ == mname:
+                parts.append((mname, name, "defaults", repr(val.__defaults__)[:500], repr(val.__kwdefaults__)[:300]))
+            elif inspect.isclass(val) and val.__module__ == mname:
+                for an, av in sorted(vars(val).items()):
+                    f = av.fget if isinstance(av, property) else av
+                    if inspect.isfunction(f):
+                        d = f.__defaults__
+                        # Node / Unit default objects are compared by their attribute values
+                        parts.append((mname, name, an, repr([getattr(x, "__dict__", x) if not isinstance(x, (int, float, str, type(None), bool, list, dict, tuple)) else x
+                                                             for x in (d or ())])[:800]))
+                    elif isinstance(av, (dict, list, set)):
+                        parts.append((mname, name, an, repr(av)[:800]))
+    return _h(repr(parts))
